@@ -191,7 +191,7 @@ def panics_in(impl):
         if d.get("meta") == "panic":
             out.append(where + "metadata")
         for ent in d.get("json", []):
-            if "panic" in ent[1:]:
+            if any(isinstance(x, str) and "panic" in x.split("+") for x in ent[1:]):
                 out.append(where + "to_json/summary of " + ent[0])
     scan(impl, "")
     if "frag" in impl:
